@@ -46,6 +46,21 @@ type Coll struct {
 	Objs []Name `json:"objs"`
 }
 
+// Shared is one more collection the backend lists for the user (and serves by
+// its path) that does NOT live below the user's home set: a shared or delegated
+// collection. It sits at collection depth below the prefix like any other.
+//
+//	other-user   <prefix>/<OtherUser>/<HS>/<Name>       (in another user's tree)
+//	sibling      <prefix>/<User>/<OtherHS>/<Name>       (next to the home set)
+//	other-both   <prefix>/<OtherUser>/<OtherHS>/<Name>
+type Shared struct {
+	Where string `json:"where"`
+	Name  Name   `json:"name"`
+	Objs  []Name `json:"objs"`
+}
+
+var sharedWheres = []string{"other-user", "sibling", "other-both"}
+
 // Layout is what the backend double holds, relative to the prefix:
 // principal = <prefix>/<User>, home set = <prefix>/<User>/<HS>,
 // collections = <prefix>/<User>/<HS>/<coll>, objects = .../<coll>/<obj>.
@@ -55,6 +70,8 @@ type Layout struct {
 	User  Name   `json:"user"`
 	HS    Name   `json:"hs"`
 	Colls []Coll `json:"colls"`
+	// Collections of the user's listing that live outside the home set.
+	Shared []Shared `json:"shared,omitempty"`
 
 	PSlash bool `json:"pslash"`
 	HSlash bool `json:"hslash"`
@@ -82,7 +99,7 @@ type Case struct {
 	// req
 	Method string `json:"method,omitempty"`
 	Level  int    `json:"level,omitempty"`  // segments below the prefix
-	Target string `json:"target,omitempty"` // own | foreign | foreign-user | missing
+	Target string `json:"target,omitempty"` // own | foreign | foreign-user | missing | shared (a collection of the user's listing outside the home set, or its first object)
 	Slash  bool   `json:"slash,omitempty"`  // request path spelled with a trailing slash
 	Depth  string `json:"depth,omitempty"`  // PROPFIND: "", 0, 1, infinity
 	Form   string `json:"form,omitempty"`   // PROPFIND: allprop|prop|nobody; MKCOL: empty|body; PUT: none|if-match|if-none-match; REPORT: query|multiget
@@ -95,8 +112,21 @@ type Case struct {
 	// request is the same, so the table applies unchanged.
 	Shape string `json:"shape,omitempty"`
 
+	// Odd, when set, spells the request path NON-canonically: one redundant
+	// piece is inserted in front of segment number OddAt of the whole path
+	// (prefix segments included; OddAt == number of segments: after the last
+	// one). dslash = an empty segment ("//"), dot = a "." segment, updown =
+	// "<Deeper>/..". Such requests are judged by judgeOdd, not by the table.
+	Odd   string `json:"odd,omitempty"`
+	OddAt int    `json:"odd_at,omitempty"`
+
 	// chain
 	Entry string `json:"entry,omitempty"` // well-known | root | root-slash | principal
+	// ReuseSeed != 0: after the chain the SAME client object is used for
+	// unrelated calls to absolute paths (the embedded webdav.Client's Stat,
+	// ReadDir, Open, RemoveAll; order and choice derive from the seed) and the
+	// discovery steps are repeated after each of them.
+	ReuseSeed int64 `json:"reuse_seed,omitempty"`
 
 	// multi (one handler serving two users): 0 = the fixed step list,
 	// otherwise the seed of a random step list.
@@ -175,11 +205,39 @@ func (cs *Case) valid() bool {
 			so[o] = true
 		}
 	}
+	for i, sh := range l.Shared {
+		if !okName(sh.Name) || seen[sh.Name] || (i == 0 && len(sh.Objs) == 0) {
+			return false
+		}
+		ok := false
+		for _, w := range sharedWheres {
+			ok = ok || w == sh.Where
+		}
+		if !ok {
+			return false
+		}
+		seen[sh.Name] = true
+		so := map[Name]bool{l.NewObj: true}
+		for _, o := range sh.Objs {
+			if !okName(o) || so[o] {
+				return false
+			}
+			so[o] = true
+		}
+	}
+	if cs.Target == "shared" && (len(l.Shared) == 0 || cs.Level < 3 || cs.Level > 4) {
+		return false
+	}
+	switch cs.Odd {
+	case "", "dslash", "dot", "updown":
+	default:
+		return false
+	}
 	// RFC 6764 reserves the well-known URIs; the handlers answer them before
 	// any routing, so a layout living there is outside the domain.
 	wk := "/.well-known/" + cs.Server
 	p := cs.prefixPath()
-	for _, q := range []string{p, joinNames(p, l.User), joinNames(p, l.User, l.HS), joinNames(p, l.OtherUser), joinNames(p, l.User, l.OtherHS), joinNames(p, l.OtherUser, l.HS)} {
+	for _, q := range []string{p, joinNames(p, l.User), joinNames(p, l.User, l.HS), joinNames(p, l.OtherUser), joinNames(p, l.User, l.OtherHS), joinNames(p, l.OtherUser, l.HS), joinNames(p, l.OtherUser, l.OtherHS)} {
 		if q == wk {
 			return false
 		}
